@@ -1,6 +1,9 @@
 """Constant folder: a whitelisted partial evaluator for *constant expressions* of the
-repository (module constants, class attributes). It never calls repository code; only a
-fixed list of pure stdlib operations on literals is interpreted. Anything else -> NotConst.
+repository (module constants, class attributes). Only a fixed list of pure stdlib operations on literals is interpreted;
+a module constant defined by calling a repository helper (a table builder) is evaluated by the folder itself over the
+helper's syntax tree - assignments, loops over constant ranges, if/continue/break/return on constants - within a step
+budget, never by running the code. Module-level statements that complete a constant afterwards (`TABLE[k] = v`,
+`TABLE.update(...)`) are applied; any other module-level change of it makes it NotConst. Anything else -> NotConst.
 """
 from __future__ import annotations
 
@@ -71,14 +74,15 @@ class Folder:
                 return {"True": True, "False": False, "None": None}[expr.id]
             r = self.p.lookup_name(mod, expr.id)
             if isinstance(r, tuple) and r[0] == "const":
-                return self.fold(r[1], r[2], None, depth + 1)
+                return self._module_value(r[1], expr.id if expr.id in r[1].constants and r[1].constants[expr.id] is r[2] else None, r[2], depth + 1)
             if isinstance(r, tuple) and r[0] == "ext" and r[1] in _EXT_CONSTS:
                 return _EXT_CONSTS[r[1]]
             raise NotConst(f"name {expr.id}")
         if isinstance(expr, ast.Attribute):
             r = self.p.resolve_dotted(mod, expr)
             if isinstance(r, tuple) and r[0] == "const":
-                return self.fold(r[1], r[2], None, depth + 1)
+                nm_ = next((k for k, v in r[1].constants.items() if v is r[2]), None)
+                return self._module_value(r[1], nm_, r[2], depth + 1)
             if isinstance(r, tuple) and r[0] == "ext" and r[1] in _EXT_CONSTS:
                 return _EXT_CONSTS[r[1]]
             raise NotConst(f"attribute {ast.unparse(expr)}")
@@ -89,11 +93,20 @@ class Folder:
                     out += v.value
                 elif isinstance(v, ast.FormattedValue):
                     val = f(v.value)
-                    if v.conversion != -1 or v.format_spec is not None:
-                        raise NotConst("format spec")
+                    if v.conversion != -1:
+                        raise NotConst("format conversion")
                     if not isinstance(val, (str, int)):
                         raise NotConst("fstring non-str")
-                    out += str(val)
+                    if v.format_spec is not None:
+                        spec = f(v.format_spec)
+                        if not isinstance(spec, str):
+                            raise NotConst("format spec")
+                        try:
+                            out += format(val, spec)
+                        except Exception as e:
+                            raise NotConst(f"format spec: {e}")
+                    else:
+                        out += str(val)
             return out
         if isinstance(expr, ast.BinOp):
             l, r_ = f(expr.left), f(expr.right)
@@ -188,6 +201,17 @@ class Folder:
                 return v[k]
             except Exception:
                 raise NotConst("subscript")
+        if isinstance(expr, ast.UnaryOp) and isinstance(expr.op, ast.Not):
+            return not f(expr.operand)
+        if isinstance(expr, ast.BoolOp):
+            v = None
+            for e_ in expr.values:
+                v = f(e_)
+                if (isinstance(expr.op, ast.And) and not v) or (isinstance(expr.op, ast.Or) and v):
+                    return v
+            return v
+        if isinstance(expr, ast.IfExp):
+            return f(expr.body) if f(expr.test) else f(expr.orelse)
         if isinstance(expr, ast.UnaryOp) and isinstance(expr.op, ast.USub):
             v = f(expr.operand)
             if isinstance(v, int):
@@ -198,7 +222,9 @@ class Folder:
         f = lambda e: self.fold(mod, e, env, depth + 1)  # noqa: E731
         fn = call.func
         if isinstance(fn, ast.Name):
-            r = self.p.lookup_name(mod, fn.id)
+            r = self.p.lookup_name(mod, fn.id) if fn.id not in (env or {}) else None
+            if isinstance(r, FuncInfo):
+                return self._eval_function(r, [f(a) for a in call.args], {kw.arg: f(kw.value) for kw in call.keywords if kw.arg}, depth + 1)
             name = fn.id if r is None else (r[1] if isinstance(r, tuple) and r[0] == "ext" else None)
         elif isinstance(fn, ast.Attribute):
             r = self.p.resolve_dotted(mod, fn)
@@ -253,6 +279,183 @@ class Folder:
             return str(args[0])
         raise NotConst(f"call {name or ast.unparse(fn)}")
 
+    # module-level constants that are completed by later module-level statements ---------------
+    def _module_value(self, mod: Module, name: Optional[str], expr: ast.expr, depth: int) -> Any:
+        val = self.fold(mod, expr, None, depth)
+        if name is None or not isinstance(val, (dict, list, set)):
+            return val
+        for st in mod.tree.body:
+            if not any(isinstance(n, ast.Name) and n.id == name for n in ast.walk(st)):
+                continue
+            if isinstance(st, (ast.Assign, ast.AnnAssign)) and getattr(st, "value", None) is expr:
+                continue
+            if isinstance(st, (ast.FunctionDef, ast.AsyncFunctionDef, ast.ClassDef)):
+                continue  # uses inside functions are the process-wide-mutation rule's business, not the folder's
+            if isinstance(st, ast.Assign) and len(st.targets) == 1 and isinstance(st.targets[0], ast.Subscript) and isinstance(st.targets[0].value, ast.Name) and st.targets[0].value.id == name \
+                    and isinstance(val, (dict, list)):
+                try:
+                    val[self.fold(mod, st.targets[0].slice, None, depth + 1)] = self.fold(mod, st.value, None, depth + 1)
+                except NotConst:
+                    raise
+                except Exception as e:
+                    raise NotConst(f"module-level update of {name}: {e}")
+                continue
+            if isinstance(st, ast.Expr) and isinstance(st.value, ast.Call) and isinstance(st.value.func, ast.Attribute) and isinstance(st.value.func.value, ast.Name) and st.value.func.value.id == name \
+                    and st.value.func.attr in ("update", "append", "extend", "add", "setdefault", "pop", "discard", "remove") and not st.value.keywords:
+                args = [self.fold(mod, a, None, depth + 1) for a in st.value.args]
+                try:
+                    getattr(val, st.value.func.attr)(*args)
+                except Exception as e:
+                    raise NotConst(f"module-level update of {name}: {e}")
+                continue
+            if isinstance(st, ast.Delete) and all(isinstance(t, ast.Subscript) and isinstance(t.value, ast.Name) and t.value.id == name for t in st.targets):
+                for t in st.targets:
+                    try:
+                        del val[self.fold(mod, t.slice, None, depth + 1)]
+                    except NotConst:
+                        raise
+                    except Exception as e:
+                        raise NotConst(f"module-level delete on {name}: {e}")
+                continue
+            # the name is read by another module-level statement (building another constant): harmless unless it is the target of a mutation we do not model
+            if any(isinstance(n, (ast.Assign, ast.AugAssign, ast.Delete, ast.For, ast.While, ast.With, ast.If, ast.Try)) for n in [st]) and any(
+                    (isinstance(n, ast.Name) and n.id == name and isinstance(n.ctx, (ast.Store, ast.Del)))
+                    or (isinstance(n, (ast.Subscript, ast.Attribute)) and isinstance(n.ctx, (ast.Store, ast.Del)) and isinstance(n.value, ast.Name) and n.value.id == name)
+                    or (isinstance(n, ast.Call) and isinstance(n.func, ast.Attribute) and isinstance(n.func.value, ast.Name) and n.func.value.id == name
+                        and n.func.attr in ("update", "append", "extend", "add", "setdefault", "pop", "popitem", "clear", "discard", "remove", "insert", "sort", "reverse"))
+                    for n in ast.walk(st)):
+                raise NotConst(f"{name} is changed by a module-level statement outside the folder's table: {' '.join(ast.unparse(st).split())[:60]}")
+        return val
+
+    # bounded evaluation of a repository function on constants (the table-building helper of a module constant) -----------
+    _STEP_LIMIT = 20000
+
+    def _eval_function(self, fi: FuncInfo, args, kwargs, depth: int) -> Any:
+        if depth > 12:
+            raise NotConst("call depth")
+        node = fi.node
+        if isinstance(node, ast.AsyncFunctionDef) or fi.is_generator() or fi.decorators or node.args.vararg or node.args.kwarg or node.args.posonlyargs:
+            raise NotConst(f"call {fi.fq}")
+        names = [a.arg for a in node.args.args]
+        if len(args) > len(names):
+            raise NotConst("too many arguments")
+        env: Dict[str, Any] = dict(zip(names, args))
+        ndef = len(node.args.defaults)
+        for i, a in enumerate(names):
+            if a in env:
+                continue
+            if a in kwargs:
+                env[a] = kwargs[a]
+                continue
+            j = i - (len(names) - ndef)
+            if j < 0:
+                raise NotConst("missing argument")
+            env[a] = self.fold(fi.module, node.args.defaults[j], None, depth + 1)
+        for a, d in zip(node.args.kwonlyargs, node.args.kw_defaults):
+            if a.arg in kwargs:
+                env[a.arg] = kwargs[a.arg]
+            elif d is not None:
+                env[a.arg] = self.fold(fi.module, d, None, depth + 1)
+            else:
+                raise NotConst("missing keyword argument")
+        steps = [0]
+        r = self._exec_block(fi.module, node.body, env, depth, steps)
+        if r is not None and r[0] == "return":
+            return r[1]
+        return None
+
+    def _exec_block(self, mod: Module, body, env: Dict[str, Any], depth: int, steps):
+        ev = lambda e: self.fold(mod, e, env, depth + 1)  # noqa: E731
+        for st in body:
+            steps[0] += 1
+            if steps[0] > self._STEP_LIMIT:
+                raise NotConst("evaluation budget")
+            if isinstance(st, ast.Expr) and isinstance(st.value, ast.Constant):
+                continue  # docstring
+            if isinstance(st, ast.Pass):
+                continue
+            if isinstance(st, ast.Return):
+                return ("return", None if st.value is None else ev(st.value))
+            if isinstance(st, ast.Break):
+                return ("break",)
+            if isinstance(st, ast.Continue):
+                return ("continue",)
+            if isinstance(st, (ast.Assign, ast.AnnAssign)):
+                if isinstance(st, ast.AnnAssign):
+                    if st.value is None:
+                        continue
+                    targets = [st.target]
+                else:
+                    targets = st.targets
+                v = ev(st.value)
+                for t in targets:
+                    self._bind(mod, t, v, env, depth)
+                continue
+            if isinstance(st, ast.AugAssign) and isinstance(st.target, ast.Name):
+                cur = ev(st.target)
+                v = self.fold(mod, ast.BinOp(left=ast.Constant(value=cur), op=st.op, right=ast.Constant(value=ev(st.value))), env, depth + 1) \
+                    if isinstance(cur, (str, bytes, int)) else None
+                if v is None:
+                    raise NotConst("augmented assignment")
+                env[st.target.id] = v
+                continue
+            if isinstance(st, ast.If):
+                r = self._exec_block(mod, st.body if ev(st.test) else st.orelse, env, depth, steps)
+                if r is not None:
+                    return r
+                continue
+            if isinstance(st, ast.For) and not st.orelse:
+                it = ev(st.iter)
+                if not isinstance(it, (list, tuple, range, str, bytes, dict, set, frozenset)):
+                    raise NotConst("loop iterable")
+                items = sorted(it) if isinstance(it, (set, frozenset)) else list(it)
+                for x in items:
+                    self._bind(mod, st.target, x, env, depth)
+                    r = self._exec_block(mod, st.body, env, depth, steps)
+                    if r is not None:
+                        if r[0] == "break":
+                            break
+                        if r[0] == "return":
+                            return r
+                continue
+            if isinstance(st, ast.Expr) and isinstance(st.value, ast.Call) and isinstance(st.value.func, ast.Attribute) and isinstance(st.value.func.value, ast.Name) \
+                    and st.value.func.value.id in env and isinstance(env[st.value.func.value.id], (dict, list, set)) \
+                    and st.value.func.attr in ("update", "append", "extend", "add", "setdefault", "pop", "discard", "remove", "insert") and not st.value.keywords:
+                try:
+                    getattr(env[st.value.func.value.id], st.value.func.attr)(*[ev(a) for a in st.value.args])
+                except NotConst:
+                    raise
+                except Exception as e:
+                    raise NotConst(f"container update: {e}")
+                continue
+            if isinstance(st, ast.Delete) and all(isinstance(t, ast.Subscript) and isinstance(t.value, ast.Name) and t.value.id in env for t in st.targets):
+                for t in st.targets:
+                    try:
+                        del env[t.value.id][ev(t.slice)]
+                    except NotConst:
+                        raise
+                    except Exception as e:
+                        raise NotConst(f"delete: {e}")
+                continue
+            raise NotConst(f"statement {type(st).__name__} in an evaluated helper")
+        return None
+
+    def _bind(self, mod: Module, t: ast.expr, v: Any, env: Dict[str, Any], depth: int) -> None:
+        if isinstance(t, ast.Name):
+            env[t.id] = v
+        elif isinstance(t, (ast.Tuple, ast.List)) and isinstance(v, (tuple, list)) and len(v) == len(t.elts) and not any(isinstance(e, ast.Starred) for e in t.elts):
+            for e, x in zip(t.elts, v):
+                self._bind(mod, e, x, env, depth)
+        elif isinstance(t, ast.Subscript) and isinstance(t.value, ast.Name) and t.value.id in env and isinstance(env[t.value.id], (dict, list)):
+            try:
+                env[t.value.id][self.fold(mod, t.slice, env, depth + 1)] = v
+            except NotConst:
+                raise
+            except Exception as e:
+                raise NotConst(f"item assignment: {e}")
+        else:
+            raise NotConst("assignment target")
+
     # convenience -------------------------------------------------------
     def module_const(self, modname: str, name: str) -> Any:
         mod = self.p.module(modname)
@@ -260,7 +463,7 @@ class Folder:
             from .loader import AnalysisError
 
             raise AnalysisError(f"constant {modname}.{name} vanished")
-        return self.fold(mod, mod.constants[name])
+        return self._module_value(mod, name, mod.constants[name], 0)
 
     def class_attr(self, ci: ClassInfo, name: str) -> Any:
         r = self.p.find_class_attr(ci, name)
